@@ -93,19 +93,31 @@ fn note(size: usize) {
     }
 }
 
+/// Inside a measured region: run harness-side code (projection) without counting its allocations.
+pub fn paused<R>(f: impl FnOnce() -> R) -> R {
+    let was = ARMED.with(|a| a.replace(false));
+    let r = f();
+    ARMED.with(|a| a.set(was));
+    r
+}
+
 /// Run f with the allocation counter armed; returns (result-or-panic, allocation count, largest request).
 pub fn measured<R>(f: impl FnOnce() -> R) -> (Result<R, String>, u64, u64) {
+    // nesting-aware: an inner measurement adds to the enclosing one
+    let saved = (COUNT.with(|c| c.get()), MAXREQ.with(|c| c.get()), ARMED.with(|a| a.get()), IN_CALL.load(Ordering::SeqCst));
     COUNT.with(|c| c.set(0));
     MAXREQ.with(|c| c.set(0));
     OP_SEQ.fetch_add(1, Ordering::SeqCst);
     IN_CALL.store(true, Ordering::SeqCst);
     ARMED.with(|a| a.set(true));
     let r = std::panic::catch_unwind(std::panic::AssertUnwindSafe(f));
-    ARMED.with(|a| a.set(false));
-    IN_CALL.store(false, Ordering::SeqCst);
+    ARMED.with(|a| a.set(saved.2));
+    IN_CALL.store(saved.3, Ordering::SeqCst);
     OP_SEQ.fetch_add(1, Ordering::SeqCst);
     let n = COUNT.with(|c| c.get());
     let m = MAXREQ.with(|c| c.get());
+    COUNT.with(|c| c.set(saved.0 + n));
+    MAXREQ.with(|c| c.set(saved.1.max(m)));
     match r {
         Ok(v) => (Ok(v), n, m),
         Err(e) => {
